@@ -150,7 +150,7 @@ atexit.register(_shutdown)
 
 def hashseeds():
     base = int(os.environ.get("VERIF_SEED", "1"))
-    k = os.getpid() % 9973
+    k = int(os.environ.get("VERIF_SHARD", "0"))  # shard index: a pure function of the run's seed
     return [0, 1 + (base * 7919 + k * 31) % 4000000000, 1 + (base * 104729 + k * 17 + 4242) % 4000000000]
 
 
